@@ -103,6 +103,7 @@ def run_views(case):
          f"    x = Port.input(BitVector[{W}])", f"    t = Port.output({rk}[{W}], default=Null)"]
     for i, (s, lo, hi, kind) in enumerate(reads):
         L.append(f"    r{i} = Port.output({'Bit' if kind == 'bit' else f'BitVector[{hi - lo + 1}]'})")
+    L.append("    #PLOCAL_PORTS#")
     L += ["    def architecture(self):", "        loc = Signal[" + f"{rk}[{W}]](Null, name='loc')",
           "        @std.concurrent", "        def logic():"]
     iter_reads = 0
@@ -117,6 +118,12 @@ def run_views(case):
         L.append(f"            self.r{i} <<= {src}" + ('' if kind == 'bit' else '.bitvector' if not s.endswith('.bitvector') else ''))
     cnt['iterated_view_reads'] += iter_reads
     L += ["        @std.sequential(std.Clock(self.clk))", "        def proc():"]
+    # a Signal constructed inside the process from a run-time value: the object and all of its views denote the value just
+    # assigned (not the value of the previous clock)
+    plocal = [rand_chain(rnd, W) for _ in range(3)]
+    L.append(f"            ploc = Signal[{rk}[{W}]](self.a, name='ploc')")
+    for i, (s, lo, hi, kind) in enumerate(plocal):
+        L.append(f"            self.pl{i} <<= ploc{s}" + ('' if kind == 'bit' else '.bitvector' if not s.endswith('.bitvector') else ''))
     for (s, lo, hi, kind) in writes:
         w = hi - lo + 1
         if kind == 'bit':
@@ -135,6 +142,8 @@ def run_views(case):
                 view = ''
             L.append(f"            self.t{s} <<= self.x[{hi}:{lo}]{view}")
     src = '\n'.join(L) + '\n'
+    src = src.replace("    #PLOCAL_PORTS#\n", ''.join(f"    pl{i} = Port.output({'Bit' if kind == 'bit' else f'BitVector[{hi - lo + 1}]'})\n"
+                                                    for i, (s, lo, hi, kind) in enumerate(plocal)))
     mod = load_source(src, 'c13')
     try:
         try:
@@ -162,6 +171,14 @@ def run_views(case):
                 if got.__class__ is Meta or got != want:
                     viol.append(violation('view-reads-wrong-bits', f"a{s} of {rk}[{W}] denotes bits [{hi}:{lo}] of a; a={av:#x}: emitted logic "
                                           f"gives {fmt(got)}, expected {want:#x}", source=src, vhdl=comp.text))
+                    return result(viol=viol, cnt=dict(cnt))
+            for i, (s, lo, hi, kind) in enumerate(plocal):
+                want = (av >> lo) & ((1 << (hi - lo + 1)) - 1)
+                got = sim.get(f"pl{i}")
+                cnt['comparisons'] += 1
+                if got.__class__ is Meta or got != want:
+                    viol.append(violation('view-of-process-local-signal', f"ploc = Signal(a) inside the process, then ploc{s} denotes bits [{hi}:{lo}] of "
+                                          f"the value just assigned; a={av:#x}: registered output {fmt(got)}, expected {want:#x}", source=src, vhdl=comp.text))
                     return result(viol=viol, cnt=dict(cnt))
             for (s, lo, hi, kind) in writes:
                 m = ((1 << (hi - lo + 1)) - 1) << lo
